@@ -28,6 +28,7 @@ theorem recOk_of {rs : List Rec} (h1 : noSpecial rs = true) (h2 : hasCsRec rs = 
   | switchIn => cases a2
   | switchOut => cases a2
   | sched => cases a2
+  | otherEvent => trivial
   | sample => trivial
   | fork => trivial
   | exit => trivial
@@ -181,9 +182,10 @@ theorem views_recorded_flush {γ} (s : St) (hinv : InvA s) (hsok : ∀ u ∈ buf
       (views s).flatMap (fun v => (v.samples.filter (fun o => !o.synth)).map (F v)) := by
     unfold views
     rw [List.map_flatMap]; congr 1; funext v; rw [List.map_map]; rfl
-  have e2 : (((flushAll s).map (fun o => (o.2.synth, G o.1 o.2))).filter (fun x => !x.1)).map Prod.snd =
+  have e2 : ((((flushAll s).filter (fun o => !o.2.marker)).map (fun o => (o.2.synth, G o.1 o.2))).filter
+        (fun x => !x.1)).map Prod.snd =
       ((flushAll s).filter (fun o => !o.2.synth)).map (fun o => G o.1 o.2) := by
-    rw [List.filter_map, List.map_map]; rfl
+    rw [List.filter_map, List.map_map, ← filter_marker_synthO (flushAll s)]; rfl
   rw [e1, e2] at h2
   exact h2
 
